@@ -9,6 +9,7 @@ package txnsnapshot
 // counterexamples replay natively.
 
 import (
+	"errors"
 	"bytes"
 	"context"
 	"sync"
@@ -637,6 +638,9 @@ type zzKVStore struct {
 	orc      *zzOracle
 	resolver *txnlock.LockResolver
 	gos      int
+	// the transaction safe point the store has learnt (0 = none): reads below it are not visible
+	safePoint  uint64
+	visChecked int
 }
 
 func zzNewKVStore(st *zzStore) *zzKVStore {
@@ -653,7 +657,15 @@ func (k *zzKVStore) close() {
 	k.cache.Close()
 }
 
-func (k *zzKVStore) CheckVisibility(startTime uint64) error { return nil }
+var zzErrAbortedByGC = errors.New("zz: start ts is below the transaction safe point")
+
+func (k *zzKVStore) CheckVisibility(startTime uint64) error {
+	k.visChecked++
+	if startTime < k.safePoint {
+		return zzErrAbortedByGC
+	}
+	return nil
+}
 func (k *zzKVStore) GetRegionCache() *locate.RegionCache    { return k.cache }
 func (k *zzKVStore) GetLockResolver() *txnlock.LockResolver { return k.resolver }
 func (k *zzKVStore) GetTiKVClient() client.Client           { return k.cli }
